@@ -203,6 +203,12 @@ def _exec_ops(ops, entropy_key, only_seeded=False):
         v = rng.GetRng(op["name"]).RandomBits(op["n"], seed=op["seed"])
         ev = {"v": v if isinstance(v, int) and not isinstance(v, bool)
               else repr(type(v)), "ok": True}
+        if op["seed"] is None and op["name"] in UNSEEDED_UNCONTROLLED:
+          # seeded in C from the real os.urandom: keep only the verdict, the
+          # value itself must not enter the (replayable) event log
+          isint = isinstance(v, int) and not isinstance(v, bool)
+          ev = {"ok": True, "uncontrolled": True, "is_int": isint,
+                "in_range": bool(isint and 0 <= v < (1 << op["n"]))}
       except Exception as ex:  # pylint: disable=broad-except
         ev = {"ok": False, "exc": "%s: %s" % (type(ex).__name__, ex)}
       ev["ecalls"] = ent.calls - c0
@@ -219,7 +225,12 @@ def _exec_ops(ops, entropy_key, only_seeded=False):
         except Exception as ex:  # pylint: disable=broad-except
           vals.append("%s: %s" % (type(ex).__name__, ex))
         draws.append(ent.calls - c0)
-      events.append({"vals": vals, "draws": draws})
+      if op["name"] in UNSEEDED_UNCONTROLLED:
+        ok = [isinstance(v, int) and not isinstance(v, bool) and
+              0 <= v < (1 << op["n"]) for v in vals]
+        events.append({"uncontrolled": True, "in_range": ok, "draws": draws})
+      else:
+        events.append({"vals": vals, "draws": draws})
     elif kind == "host":
       if op["kind"] == "random.seed":
         random.seed(op["arg"])
@@ -282,6 +293,11 @@ def judge(plan, events, fresh):
     name, n = op["name"], op["n"]
     if kind == "rng_pair":
       stats["pair_checks"] += 1
+      if ev.get("uncontrolled"):
+        if not all(ev["in_range"]):
+          viol.append(_v("range", i, name, "unseeded result out of range or "
+                         "not an int", None, {"n": n}))
+        continue
       v1, v2 = ev["vals"]
       for v in (v1, v2):
         _range_check(viol, i, name, n, v, stats)
@@ -300,6 +316,12 @@ def judge(plan, events, fresh):
     stats["states"].add((name, n % 64, seed_class, pos_class(i)))
     if not ev["ok"]:
       viol.append(_v("raises", i, name, ev["exc"], None, {"n": n}))
+      continue
+    if ev.get("uncontrolled"):
+      stats["unseeded_calls"] += 1
+      if not (ev["is_int"] and ev["in_range"]):
+        viol.append(_v("range", i, name, "unseeded result out of range or not "
+                       "an int", None, {"n": n}))
       continue
     v = ev["v"]
     _range_check(viol, i, name, n, v, stats)
